@@ -447,6 +447,8 @@ void EGLPNUM_TYPENAME_ILLprice_init_mpartial_price (
 
 	p = (pricetype == COL_PRICING) ? &(pinf->pmpinfo) : &(pinf->dmpinfo);
 	p->bsize = 0;
+	if (p->ngroups == 0)					/* nothing to price (no nonbasic columns / no rows) */
+		return;
 	i = p->cgroup;
 	do
 	{
@@ -523,6 +525,7 @@ void EGLPNUM_TYPENAME_ILLprice_update_mpartial_price (
 #endif
 
 	i = p->cgroup;
+	if (p->ngroups > 0)						/* else there is nothing to price */
 	do
 	{
 		EGLPNUM_TYPENAME_ILLprice_mpartial_group (lp, p, phase, i, pricetype);
